@@ -5,7 +5,7 @@ import json
 import os
 import subprocess
 import os as _os
-_os.environ.setdefault('VERIF_ITEM_S', '120')     # seeded trees may make single work items very slow
+_os.environ.setdefault('VERIF_ITEM_S', '420')     # seeded trees may make single work items very slow
 import sys
 
 ROOT = "/verif"
